@@ -89,9 +89,17 @@ func verifyFunction(P *Program, S *Specs, ct *Contract) *FuncResult {
 	fr.entry = entry
 	env := fr.envAt(entry, entry.heap, "requires of "+ct.Key)
 	for _, rq := range ct.Requires {
-		vc.assert(env.eval(rq.E).T())
+		vc.assert(env.evalAssume(rq.E).T())
 	}
-	fr.run(&State{heap: entry.heap, now: entry.now}, "true")
+	startHeap := entry.heap
+	for _, gv := range ct.GhostVars {
+		fam := "GV_" + ct.Key + "." + gv.Name
+		vc.family(fam, specSort(gv.GType))
+		if gv.Init != nil {
+			startHeap = vc.heapSet(startHeap, fam, env.eval(gv.Init).T())
+		}
+	}
+	fr.run(&State{heap: startHeap, now: entry.now}, "true")
 	// loop / site binding checks
 	for k := range ct.LoopInv {
 		if k < 1 || k > len(fr.loops) {
@@ -124,8 +132,10 @@ func verifyFunction(P *Program, S *Specs, ct *Contract) *FuncResult {
 			if lbl == "" {
 				lbl = fmt.Sprint(i + 1)
 			}
-			g := penv.eval(en.E).T()
-			fr.oblige("post", fmt.Sprintf("%s.ret%d", lbl, ri+1), g, en.Props, r.blk.Instrs[len(r.blk.Instrs)-1].Pos(), "ensures "+en.Src)
+			g := penv.evalGoal(en.E).T()
+			if o := fr.oblige("post", fmt.Sprintf("%s.ret%d", lbl, ri+1), g, en.Props, r.blk.Instrs[len(r.blk.Instrs)-1].Pos(), "ensures "+en.Src); o != nil {
+				o.env = penv
+			}
 		}
 		if ct.HasMod {
 			fr.frameObligations(ct, entry, r, ri, env)
@@ -191,6 +201,9 @@ func (fr *Frame) frameObligations(ct *Contract, entry *State, r retInfo, ri int,
 	}
 	var fams []string
 	for f := range vc.famSort {
+		if strings.HasPrefix(f, "GV_") {
+			continue
+		}
 		if inSet(acc, f) && !inSet(allowedFams, f) {
 			fams = append(fams, f)
 		}
